@@ -228,37 +228,87 @@ pub fn parse_radix_digits(digits: &str, radix: u32) -> Option<f64> {
 /// - Unicode: no-break space (00A0), BOM (FEFF), line separator (2028), paragraph separator (2029)
 /// - And other Unicode space separators
 fn trim_js_whitespace(s: &str) -> &str {
-    fn is_js_whitespace(c: char) -> bool {
-        matches!(
-            c,
-            ' ' | '\t'
-                | '\n'
-                | '\r'
-                | '\x0B'
-                | '\x0C'
-                | '\u{00A0}'
-                | '\u{FEFF}'
-                | '\u{2028}'
-                | '\u{2029}'
-                | '\u{1680}'
-                | '\u{2000}'
-                | '\u{2001}'
-                | '\u{2002}'
-                | '\u{2003}'
-                | '\u{2004}'
-                | '\u{2005}'
-                | '\u{2006}'
-                | '\u{2007}'
-                | '\u{2008}'
-                | '\u{2009}'
-                | '\u{200A}'
-                | '\u{202F}'
-                | '\u{205F}'
-                | '\u{3000}'
-        )
-    }
-
     s.trim_matches(is_js_whitespace)
+}
+
+/// JavaScript white space and line terminators (what `trim` and number parsing skip)
+fn is_js_whitespace(c: char) -> bool {
+    matches!(
+        c,
+        ' ' | '\t'
+            | '\n'
+            | '\r'
+            | '\x0B'
+            | '\x0C'
+            | '\u{00A0}'
+            | '\u{FEFF}'
+            | '\u{2028}'
+            | '\u{2029}'
+            | '\u{1680}'
+            | '\u{2000}'
+            | '\u{2001}'
+            | '\u{2002}'
+            | '\u{2003}'
+            | '\u{2004}'
+            | '\u{2005}'
+            | '\u{2006}'
+            | '\u{2007}'
+            | '\u{2008}'
+            | '\u{2009}'
+            | '\u{200A}'
+            | '\u{202F}'
+            | '\u{205F}'
+            | '\u{3000}'
+    )
+}
+
+/// ECMAScript parseFloat on an already stringified argument: skip leading white space, then
+/// read the longest prefix that is a decimal literal (or a signed `Infinity`); NaN if there is none.
+pub fn parse_float_prefix(s: &str) -> f64 {
+    let s = s.trim_start_matches(is_js_whitespace);
+    let (negative, rest) = match s.strip_prefix('-') {
+        Some(rest) => (true, rest),
+        None => (false, s.strip_prefix('+').unwrap_or(s)),
+    };
+    let bytes = rest.as_bytes();
+    let skip_digits = |mut i: usize| {
+        while bytes.get(i).is_some_and(u8::is_ascii_digit) {
+            i += 1;
+        }
+        i
+    };
+
+    let magnitude = if rest.starts_with("Infinity") {
+        f64::INFINITY
+    } else {
+        // digits [. digits] or . digits
+        let int_end = skip_digits(0);
+        let mut end = int_end;
+        if bytes.get(end) == Some(&b'.') {
+            let frac_end = skip_digits(end + 1);
+            if int_end > 0 || frac_end > end + 1 {
+                end = frac_end;
+            }
+        }
+        if end == 0 {
+            return f64::NAN;
+        }
+        // An exponent counts only when it has at least one digit
+        if matches!(bytes.get(end), Some(b'e' | b'E')) {
+            let sign_end = match bytes.get(end + 1) {
+                Some(b'+' | b'-') => end + 2,
+                _ => end + 1,
+            };
+            let exp_end = skip_digits(sign_end);
+            if exp_end > sign_end {
+                end = exp_end;
+            }
+        }
+        rest.get(..end)
+            .and_then(|prefix| prefix.parse::<f64>().ok())
+            .unwrap_or(f64::NAN)
+    };
+    if negative { -magnitude } else { magnitude }
 }
 
 use crate::ast::{BlockStatement, FunctionParam};
